@@ -58,6 +58,7 @@ def program(args):
     Nmpo_ok = (d ** (2 * N)) <= 260
     I = mps.product_mpo(ops.I(), N)
     objs, kinds, ev = [], [], []
+    proto = []          # environment-protocol events of compression_ runs (validated by TraceEnv)
 
     def add(o, kind, e):
         obs = mpsx.dense_obs(o, sym)
@@ -189,13 +190,29 @@ def program(args):
                     continue
                 if how == 'zipper':
                     outs.append(('zipper', z))
-                elif how == 'compress':
-                    mps.compression_(z, (objs[m], objs[p]), method=rng.choice(('1site', '2site')), max_sweeps=rng.choice((1, 2, 3)), normalize=False, opts_svd=big)
-                    outs.append(('compression_', z))
                 else:
+                    # the environment protocol of the variational compression is recorded from outside (envx) and validated against EnvCoherence / Sweeps!Comp1, Comp2
+                    import envx
+                    rec = envx.EnvRecorder()
+                    rec.install()
                     meth = rng.choice(('1site', '2site'))
-                    for k_, out in enumerate(mps.compression_(z, (objs[m], objs[p]), method=meth, max_sweeps=3, iterator=True, normalize=False, opts_svd=big)):
-                        outs.append(('compression_ iterator %s sweep %d' % (meth, out.sweeps), z.copy()))
+                    nsw = 0
+                    try:
+                        if how == 'compress':
+                            out = mps.compression_(z, (objs[m], objs[p]), method=meth, max_sweeps=rng.choice((1, 2, 3)), normalize=False, opts_svd=big)
+                            nsw = out.sweeps
+                            outs.append(('compression_', z))
+                        else:
+                            for k_, out in enumerate(mps.compression_(z, (objs[m], objs[p]), method=meth, max_sweeps=3, iterator=True, normalize=False, opts_svd=big)):
+                                nsw = out.sweeps
+                                outs.append(('compression_ iterator %s sweep %d' % (meth, out.sweeps), z.copy()))
+                    finally:
+                        rec.uninstall()
+                    for tr in rec.traces():
+                        what = 'compression_ %s %s N=%d seed=%s sweeps=%d %s' % (meth, how, N, seed, nsw, tr['cls'])
+                        proto.append({'op': 'coherence', 'what': what, 'N': tr['N'], 'pre': tr['pre'], 'events': tr['events']})
+                        proto.append({'op': 'schedule', 'what': what, 'N': tr['N'], 'methods': ['comp1' if meth == '1site' else 'comp2'] * nsw, 'decisions': [[] for _ in range(nsw)],
+                                      'tail': [], 'cache': envx.cache_events(tr['events']), 'interleave_measure': True})
                 for lab, res in outs:
                     o = rounded_obs(res, sym)
                     if o is None:
@@ -242,7 +259,7 @@ def program(args):
         if len(objs) > 11:
             break
     return {'sym': sym, 'ferm': T.ferm_vector(sym, ops.config.fermionic), 'seed': seed, 'family': list(fam),
-            'knob': {'fusion': 'hard', 'force': 'none', 'policy': 'fuse_to_matrix'}, 'ev': ev}
+            'knob': {'fusion': 'hard', 'force': 'none', 'policy': 'fuse_to_matrix'}, 'ev': ev, 'proto': proto}
 
 
 def pbc_program(args):
@@ -388,7 +405,36 @@ def main(tier, seed, replay=None):
     with ProcessPoolExecutor(max_workers=14) as ex:
         traces = [t for t in ex.map(program, jobs, chunksize=4) if t]
         traces += [t for t in ex.map(pbc_program, pjobs, chunksize=4) if t]
+    proto = [e for t in traces for e in t.pop('proto', [])]
+    if not replay:
+        from vlib import tlc_ok
+        r = tlc_ok('SweepsMC', 'SweepsMC.cfg', workers=8, timeout=1800, mem='6g')
+        rep.add_tlc('SweepsMC (schedules of dmrg_ / tdvp_ / compression_ through EnvCoherence: every read fresh, N<=4)', r)
     nev, kinds, rej = report_traces(rep, traces)
+    # protocol of the variational compression: every read of the environment cache fresh (EnvCoherence), cache events exactly Sweeps!Comp1 / Comp2 per sweep
+    if proto:
+        ptr = [{'ev': proto[i:i + 12]} for i in range(0, len(proto), 12)]
+        pacc, pdiag, pres = validate_traces('TraceEnv', 'TraceEnv.cfg', ptr, shards=8, timeout=1800)
+        for t, rj in zip(ptr, validate_traces.last_rejects):
+            for l, why in rj[:3]:
+                e = t['ev'][l - 1]
+                rep.violation('compression-protocol:%s:%s' % (e['op'], e['what']), '%s (%s): %s' % (e['op'], e['what'], why[:600]), {'op': 'protocol', 'what': e['what']})
+        if any((not a) and not rj for a, rj in zip(pacc, validate_traces.last_rejects)):
+            raise Machinery('C06 protocol trace neither accepted nor rejected')
+        rep.cov['states'] += sum(x.distinct for x in pres)
+        rep.cov['transitions'] += sum(x.generated for x in pres)
+        if not replay:
+            import copy
+            bad = copy.deepcopy(next((e for e in proto if e['op'] == 'schedule' and len(e['cache']) > 6), None))
+            if bad is not None:
+                bad['cache'][3], bad['cache'][4] = bad['cache'][4], bad['cache'][3]
+                if bad['cache'][3] != bad['cache'][4]:
+                    a2, _, _ = validate_traces('TraceEnv', 'TraceEnv.cfg', [{'ev': [bad]}], shards=1, timeout=600)
+                    if a2[0]:
+                        raise Machinery('negative control: a compression_ schedule with two cache events swapped was accepted')
+                    rep.cov['parts']['compression_protocol_negative_control_rejected'] = True
+    rep.cov['parts']['compression_protocol'] = {'coherence_traces': sum(1 for e in proto if e['op'] == 'coherence'), 'schedule_comparisons': sum(1 for e in proto if e['op'] == 'schedule'),
+                                                'cache_events': sum(len(e['events']) for e in proto if e['op'] == 'coherence')}
     bys = {(t['seed'], t.get('kind', 'program')): t for t in traces}
     for v in rep.violations:
         t = bys.get((v[2].get('seed'), 'pbc')) if ('pbc', v[2].get('seed')) in {(t.get('kind'), t['seed']) for t in traces} and any(e.get('via', '').find('MpoPBC') >= 0 for e in bys[(v[2]['seed'], 'pbc')]['ev'][:v[2].get('event', 0)]) else bys.get((v[2].get('seed'), 'program'))
@@ -421,5 +467,5 @@ def main(tier, seed, replay=None):
                              'periodic_mpo_programs': sum(1 for t in traces if t.get('kind') == 'pbc')})
     t0 = traces[len(traces) // 2]
     rep.sample({'family': t0['family'], 'seed': t0['seed'], 'ops': [{k: v for k, v in e.items() if k != 'obs'} for e in t0['ev'] if e['op'] != 'init']})
-    rep.assumptions += ['mps_from_tensor, zipper and variational compression (SVD-based, inexact) are not part of this exact check yet', 'chain lengths bounded by the size of the dense representative (<= 300 elements)']
+    rep.assumptions += ['mps_from_tensor, zipper and variational compression are SVD-based: their results are compared after rounding to the integer product (1e-7)', 'chain lengths bounded by the size of the dense representative (<= 300 elements)']
     return rep.finish()
